@@ -66,7 +66,7 @@ func main() {
 	out := flag.String("out", "", "result json path (dir for multiple entries)")
 	loopB := flag.Int("loop", 10, "loop unwinding bound")
 	recB := flag.Int("rec", 6, "recursion bound")
-	sliceCap := flag.Int("slicecap", 6, "physical capacity for reallocated slices")
+	sliceCap := flag.Int("slicecap", 16, "physical capacity for reallocated slices")
 	timeout := flag.Int("timeout", 60000, "per-query solver timeout ms")
 	workers := flag.Int("workers", 8, "solver workers")
 	solver := flag.String("solver", "z3", "z3 | z3-new | cvc5")
